@@ -159,6 +159,14 @@ def print_param(p):
     raise Unprintable(repr(p))
 
 
+def owner_name(d):
+    """name of the extension a definition belongs to ("" when it has none), through the public accessor"""
+    try:
+        return d.get_extension().name
+    except Exception:  # noqa: BLE001  (NoParentExtension)
+        return ""
+
+
 def print_typedef(td):
     from hugr import ext
     if isinstance(td.bound, ext.ExplicitBound):
@@ -167,55 +175,79 @@ def print_typedef(td):
         bound = ["P", [int(i) for i in td.bound.indices]]
     else:
         raise Unprintable(repr(td.bound))
-    return {"ext": td._extension.name if td._extension is not None else "", "name": td.name,
+    return {"ext": owner_name(td), "name": td.name,
             "descr": td.description, "params": [print_param(p) for p in td.params], "bound": bound}
 
 
 def print_opdef(od):
-    return {"ext": od._extension.name if od._extension is not None else "", "name": od.name, "descr": od.description}
+    return {"ext": owner_name(od), "name": od.name, "descr": od.description}
+
+
+def extop_descr(op):
+    """the free-text description a definition-backed operation is written with: the field of the serialised operation
+    (the property speaks of the serialised document; it leaves open whether a resolved operation carries the
+    description it was loaded with or its definition's, so the model takes it from here - x_descr, checked for
+    admissibility by the specification).  When the operation cannot be serialised the description is not observable
+    on the wire; the conversion back to an opaque operation is asked instead."""
+    from hugr.hugr.node_port import Node
+    try:
+        d = op._to_serial(Node(0)).description
+        if isinstance(d, str):
+            return d
+    except Exception:  # noqa: BLE001
+        pass
+    try:
+        d = op.to_custom_op().description
+        if isinstance(d, str):
+            return d
+    except Exception:  # noqa: BLE001
+        pass
+    return op.op_def().description
 
 
 def print_ty(t):
+    """by isinstance, most specific first: sugar classes (Tuple / Option / Either) and other subclasses print as the
+    class whose wire form they share; only the compact unit sum is spelled differently on the wire"""
     from hugr import tys
     if isinstance(t, tys.UnitSum):
         return ["unit", int(t.size)]
     if isinstance(t, tys.Sum):
         return ["sum", [[print_ty(x) for x in row] for row in t.variant_rows]]
-    if type(t) is tys.Variable:
-        return ["var", int(t.idx), bname(t.bound)]
-    if type(t) is tys.RowVariable:
+    if isinstance(t, tys.RowVariable):
         return ["rowvar", int(t.idx), bname(t.bound)]
-    if type(t) is tys.USize:
+    if isinstance(t, tys.Variable):
+        return ["var", int(t.idx), bname(t.bound)]
+    if isinstance(t, tys.USize):
         return ["usize"]
-    if type(t) is tys._QubitDef:
+    if isinstance(t, tys._QubitDef):
         return ["qubit"]
-    if type(t) is tys.Alias:
+    if isinstance(t, tys.Alias):
         return ["alias", t.name, bname(t.bound)]
-    if type(t) is tys.FunctionType:
+    if isinstance(t, tys.FunctionType):
         return ["func", [print_ty(x) for x in t.input], [print_ty(x) for x in t.output], list(t.runtime_reqs)]
-    if type(t) is tys.PolyFuncType:
+    if isinstance(t, tys.PolyFuncType):
         return ["poly", [print_param(p) for p in t.params], [print_ty(x) for x in t.body.input],
                 [print_ty(x) for x in t.body.output], list(t.body.runtime_reqs)]
-    if type(t) is tys.Opaque:
+    if isinstance(t, tys.Opaque):
         return ["opaque", t.extension, t.id, [print_arg(a) for a in t.args], bname(t.bound)]
-    if type(t) is tys.ExtType:
+    if isinstance(t, tys.ExtType):
         return ["extty", print_typedef(t.type_def), [print_arg(a) for a in t.args]]
     raise Unprintable(repr(t))
 
 
 def print_arg(a):
     from hugr import tys
-    if type(a) is tys.TypeTypeArg:
+    if isinstance(a, tys.TypeTypeArg):
         return ["type", print_ty(a.ty)]
-    if type(a) is tys.BoundedNatArg:
+    if isinstance(a, tys.BoundedNatArg):
         return ["nat", int(a.n)]
-    if type(a) is tys.StringArg:
+    if isinstance(a, tys.StringArg):
         return ["str", a.value]
-    if type(a) is tys.SequenceArg:
+    if isinstance(a, tys.SequenceArg):
         return ["seq", [print_arg(x) for x in a.elems]]
-    if type(a) is tys.ExtensionsArg:
+    if isinstance(a, tys.ExtensionsArg):
         return ["exts", list(a.extensions)]
-    if type(a) is tys.VariableArg:
+    if isinstance(a, tys.VariableArg):
         return ["var", int(a.idx), print_param(a.param)]
     raise Unprintable(repr(a))
 
@@ -480,7 +512,7 @@ class Lit:
         if k == "extop":
             x = o[1]
             return gapp("OExt", gapp("Build_extop", self.opdef(x["def"]), self.ft(x["sig"]),
-                                     glist(self.arg(a) for a in x["args"])))
+                                     glist(self.arg(a) for a in x["args"]), self.name(x["descr"])))
         return gapp("OOther", gN(self.n(("other", o[1]))))
 
     def export(self, e):
@@ -1472,6 +1504,13 @@ def build_whole(case, reg):
     return h
 
 
+def resolved_hugr(h, ret):
+    """the HUGR to look at after `ret = h.resolve_extensions(registry)`: the returned HUGR when one is returned (today: h
+    itself), else h (resolved in place)"""
+    from hugr.hugr import Hugr
+    return ret if isinstance(ret, Hugr) else h
+
+
 def other_json(op):
     from hugr.hugr.node_port import Node
     s = op._to_serial(Node(0)).model_dump(mode="json")
@@ -1501,19 +1540,59 @@ def out_types(h, n):
     return out
 
 
+def print_custom_or_ext(op):
+    """an opaque operation / a definition-backed operation through the public accessors (op_def, type_args,
+    outer_signature), or None for any other operation (also for a definition-backed operation without a signature or
+    over types the printers do not know)"""
+    from hugr import ops
+    if isinstance(op, ops.Custom):
+        return ["custom", {"ext": op.extension, "name": op.op_name, "sig": print_ft(op.signature),
+                           "descr": op.description, "args": [print_arg(a) for a in op.args]}]
+    if isinstance(op, ops.ExtOp):
+        try:
+            if op.cached_signature() is None:       # only operations carrying their own signature are modelled
+                return None
+            return ["extop", {"def": print_opdef(op.op_def()), "sig": print_ft(op.outer_signature()),
+                              "args": [print_arg(a) for a in op.type_args()], "descr": extop_descr(op)}]
+        except Unprintable:
+            return None
+    return None
+
+
+def num_dataflow_ports(op, direction):
+    """the offset an operation's order port is serialised with (what the model's hop_ndp mirrors): hugr-py's own helper
+    when it is there, else the same count from the public classes"""
+    from hugr import ops
+    from hugr.hugr.node_port import Direction
+    f = getattr(ops, "_num_dataflow_ports", None)
+    if f is not None:
+        return f(op, direction)
+    try:
+        if isinstance(op, ops.Call):
+            sig, static = op.instantiation, 1
+        elif isinstance(op, (ops.LoadConst, ops.LoadFunc)):
+            sig, static = op.outer_signature(), 1
+        elif isinstance(op, ops.Tag) and not 0 <= op.tag < len(op.sum_ty.variant_rows):
+            return None
+        elif isinstance(op, ops.DataflowOp):
+            sig, static = op.outer_signature(), 0
+        else:
+            return None
+    except ops.IncompleteOp:
+        return None
+    return len(sig.input) + static if direction == Direction.INCOMING else len(sig.output)
+
+
 def print_hop(h, n):
     from hugr import ops
     from hugr.hugr.node_port import Direction
     op = h[n].op
-    if type(op) is ops.Custom:
-        return ["op", ["custom", {"ext": op.extension, "name": op.op_name, "sig": print_ft(op.signature),
-                                  "descr": op.description, "args": [print_arg(a) for a in op.args]}]]
-    if type(op) is ops.ExtOp and op.signature is not None:
-        return ["op", ["extop", {"def": print_opdef(op._op_def), "sig": print_ft(op.signature),
-                                 "args": [print_arg(a) for a in op.args]}]]
+    x = print_custom_or_ext(op)
+    if x is not None:
+        return ["op", x]
     if isinstance(op, ops.Const):
         return ["const", print_cval(op.val)]
-    ndp = [guard(lambda d=d: ops._num_dataflow_ports(op, d)) for d in (Direction.INCOMING, Direction.OUTGOING)]
+    ndp = [guard(lambda d=d: num_dataflow_ports(op, d)) for d in (Direction.INCOMING, Direction.OUTGOING)]
     return ["other", other_json(op), [None if raised(x) else x for x in ndp], out_types(h, n)]
 
 
@@ -1861,8 +1940,12 @@ class C11(fw.Prop):
                "through Hugr.to_json / Hugr.load_json",
                "whole HUGRs: harness/hobs.py dump plus the printers dump_whole / print_hop / print_cval / parse_doc "
                "(operations other than Custom / ExtOp / Const are interned by their serial JSON; their dataflow port "
-               "counts are read from hugr.ops._num_dataflow_ports, the function the model's hop_ndp mirrors; the values "
-               "of constants are walked through the public attributes val.Function.body / val.Sum.vals)"]
+               "counts are read from hugr.ops._num_dataflow_ports, the function the model's hop_ndp mirrors, or counted "
+               "from the public operation classes when that helper is absent; the values "
+               "of constants are walked through the public attributes val.Function.body / val.Sum.vals)",
+               "the description of a definition-backed operation (x_descr) is the `description` field of its serialised "
+               "form; the model's oracle (does a resolved operation keep the loaded description or take its "
+               "definition's) is read off that observation in run/C11Run.v (chose_keep)"]
     assumptions = ["registries are well formed (RegWF): dictionaries keyed by the objects' own names, every definition "
                    "attached to the extension it is filed in, extension names non-empty",
                    "Consistent: the bound recorded in an opaque type is the one its definition computes (needed for the "
@@ -2084,13 +2167,16 @@ class C11(fw.Prop):
         out["doc0"] = guard(lambda: parse_doc(json.loads(h.to_json())))
         out["pt0"] = whole_pts(h)
         ret = guard(lambda: h.resolve_extensions(reg))
+        h = resolved_hugr(h, ret)
         out["h1"] = dump_whole(h)
         out["doc1"] = guard(lambda: parse_doc(json.loads(h.to_json())))
         out["pt1"] = whole_pts(h)
-        out["self"] = bool(ret is h and list(h) == nodes0)
+        # the call completed and the HUGR has the same nodes in the same iteration order (the property does not say what
+        # the call returns: the HUGR itself, nothing, or the resolved HUGR)
+        out["self"] = bool(not raised(ret) and list(h) == nodes0)
         if raised(ret):
             out["resolve_raised"] = ret["raised"]
-        guard(lambda: h.resolve_extensions(reg))
+        h = resolved_hugr(h, guard(lambda: h.resolve_extensions(reg)))
         out["h2"] = dump_whole(h)
         return out
 
@@ -2116,15 +2202,9 @@ class C11(fw.Prop):
             h = Hugr.load_json(h.to_json())
 
         def print_op(op):
-            if type(op) is ops.Custom:
-                return ["custom", {"ext": op.extension, "name": op.op_name, "sig": print_ft(op.signature),
-                                   "descr": op.description, "args": [print_arg(a) for a in op.args]}]
-            if type(op) is ops.ExtOp and op.signature is not None:
-                try:
-                    return ["extop", {"def": print_opdef(op._op_def), "sig": print_ft(op.signature),
-                                      "args": [print_arg(a) for a in op.args]}]
-                except Unprintable:      # a directly built ExtOp over std ExtType subclasses: an "other" node
-                    pass
+            x = print_custom_or_ext(op)
+            if x is not None:
+                return x
             return ["other", json.dumps(ser_dict(op), sort_keys=True)]
 
         def ser_dict(op):
@@ -2190,17 +2270,19 @@ class C11(fw.Prop):
                           "ser1": ret, "exp1": ret, "pt1": [], "pb1": []})
             out["nodes"], out["rest_same"], out["resolve_raised"] = obs, False, ret["raised"]
             return out
+        h = resolved_hugr(h, ret)
         for n, o, pairs in zip(nodes, obs, pairs_l):
             o["res"] = print_op(h[n].op)
             o["ser1"] = guard(lambda: ser_op(h[n].op))
             o["exp1"] = guard(lambda: export(h, n, pairs))
             o["pt1"], o["pb1"] = ports(h, n)
         rest1 = guard(lambda: rest(h))
-        h.resolve_extensions(reg)
+        same_nodes = list(h) == nodes
+        h = resolved_hugr(h, guard(lambda: h.resolve_extensions(reg)))
         for n, o in zip(nodes, obs):
             o["res2"] = print_op(h[n].op)
         out["nodes"] = obs
-        out["rest_same"] = bool(rest0 == rest1 and not raised(rest0) and ret is h and list(h) == nodes)
+        out["rest_same"] = bool(rest0 == rest1 and not raised(rest0) and same_nodes)
         return out
 
     # ---- literal
